@@ -180,7 +180,7 @@ def gtf_annotation(rng, cfg=None):
     transcripts without exons, shuffled line order."""
     cfg = cfg or {}
     pool = cfg.get("pool") or [1, 5, 10, 20, 30, 40, 50, 60]
-    n_genes = rng.randint(1, cfg.get("max_genes", 3))
+    n_genes = rng.randint(1, cfg.get("max_genes", 3)) if cfg.get("max_genes", 3) <= 10 else cfg["max_genes"]
     sub = cfg.get("subfeature", "exon")
     tk = cfg.get("transcript_key", "transcript_id")
     gk = cfg.get("gene_key", "gene_id")
